@@ -490,6 +490,10 @@ func checkC20(p *core.Program, r *core.Report) {
 
 	// ---- R5 evaluated templates are tagged
 	c20R5(p, r, isAction)
+
+	// ---- R6 merge of extracted results
+	r.Rule("R6", "NewResultSpecs merges every category of every extracted result into the spec of its key (no other filter) and copies key/name/categories into new specs")
+	c20R6(p, r)
 }
 
 func embeds(t, base *types.Named) bool {
@@ -810,4 +814,110 @@ func fieldOwnerName(p *core.Program, f *types.Var) string {
 		}
 	}
 	return core.RelPkgAny(f.Pkg().Path()) + ".?"
+}
+
+// c20R6: NewResultSpecs merges the categories of every extracted result into the spec of its key. The append of a
+// category may be controlled only by: the loop bounds, the `existing != nil` test, and the "not already listed" test
+// on the same category.
+func c20R6(p *core.Program, r *core.Report) {
+	fn := p.Func("flows", "NewResultSpecs")
+	if fn == nil {
+		r.Errorf("flows.NewResultSpecs not found")
+		return
+	}
+	found := 0
+	for _, cs := range core.Calls(fn, false) {
+		b, ok := cs.Common().Value.(*ssa.Builtin)
+		if !ok || b.Name() != "append" {
+			continue
+		}
+		args := cs.Common().Args
+		// destination is a Categories field
+		destIsCats := false
+		for v := range core.BackSlice(args[0], nil) {
+			if fa, ok := v.(*ssa.FieldAddr); ok && core.FieldAddrVar(fa).Name() == "Categories" {
+				destIsCats = true
+			}
+		}
+		if !destIsCats {
+			continue
+		}
+		found++
+		bad := ""
+		for _, ce := range core.ControllingConds(cs.Instr.Block()) {
+			switch c := ce.Cond.(type) {
+			case *ssa.BinOp:
+				if c.Op == token.LSS {
+					continue // range bounds
+				}
+				if (c.Op == token.NEQ || c.Op == token.EQL) && (core.IsNilConst(c.X) || core.IsNilConst(c.Y)) {
+					continue // existing != nil
+				}
+				bad = "condition " + c.X.String() + " " + c.Op.String() + " " + c.Y.String()
+			case *ssa.Call:
+				o := core.CalleeObj(&c.Call)
+				if o != nil && core.ObjName(o) == "utils.StringSliceContains" {
+					// must test the Categories slice, not another list
+					onCats := false
+					for v := range core.BackSlice(c.Call.Args[0], nil) {
+						if fa, ok := v.(*ssa.FieldAddr); ok && core.FieldAddrVar(fa).Name() == "Categories" {
+							onCats = true
+						}
+					}
+					if onCats {
+						continue
+					}
+					bad = "membership test on " + canon(c.Call.Args[0]) + " (not the category list) decides whether a category is merged"
+				} else {
+					bad = "call condition " + c.String()
+				}
+			case *ssa.UnOp:
+				// !contains(...)
+				if inner, ok := c.X.(*ssa.Call); ok {
+					o := core.CalleeObj(&inner.Call)
+					if o != nil && core.ObjName(o) == "utils.StringSliceContains" {
+						onCats := false
+						for v := range core.BackSlice(inner.Call.Args[0], nil) {
+							if fa, ok := v.(*ssa.FieldAddr); ok && core.FieldAddrVar(fa).Name() == "Categories" {
+								onCats = true
+							}
+						}
+						if onCats {
+							continue
+						}
+						bad = "membership test on " + canon(inner.Call.Args[0]) + " (not the category list) decides whether a category is merged"
+						continue
+					}
+				}
+				bad = "condition " + c.String()
+			default:
+				bad = "condition " + ce.Cond.String()
+			}
+		}
+		r.Check(bad == "", "R6", "flows.NewResultSpecs/merges-every-category", p.Pos(cs.Pos()),
+			"category append is controlled only by loop bounds, existing != nil and the not-already-listed test", "categories of a result are dropped from the merged spec: "+bad)
+	}
+	if found == 0 {
+		r.Bad("R6", "flows.NewResultSpecs/merges-every-category", p.Pos(fn.Pos()), "no append to a spec's Categories found: results sharing a key lose the categories of the later producers")
+	}
+	// the new-spec branch copies Key, Name and Categories of the result's info
+	copied := map[string]bool{}
+	core.EachInstr(fn, false, func(_ *ssa.Function, in ssa.Instruction) {
+		st, ok := in.(*ssa.Store)
+		if !ok {
+			return
+		}
+		fa, ok := st.Addr.(*ssa.FieldAddr)
+		if !ok {
+			return
+		}
+		name := core.FieldAddrVar(fa).Name()
+		for v := range core.BackSlice(st.Val, nil) {
+			if f2, ok := v.(*ssa.FieldAddr); ok && core.FieldAddrVar(f2).Name() == name && (name == "Key" || name == "Name" || name == "Categories") {
+				copied[name] = true
+			}
+		}
+	})
+	r.Check(copied["Key"] && copied["Name"] && copied["Categories"], "R6", "flows.NewResultSpecs/new-spec-copies-info", p.Pos(fn.Pos()),
+		"Key, Name, Categories copied from the extracted info", fmt.Sprintf("a new spec does not copy all of Key/Name/Categories from the extracted result (%v)", copied))
 }
